@@ -1,13 +1,15 @@
 import FastorModel.Driver.Common
 import FastorModel.Model.RandomViews
 import FastorModel.Model.Config
+import FastorModel.Model.Views
+import FastorModel.Model.ViewWrite
 /- `rview` / `fview` commands of the driver: index-tensor views and boolean-mask views (C19) -/
 namespace Fastor.Driver
 open Fastor Fastor.Expr Fastor.RandomViews
 
 /-- postfix encoding: `v<k>` view leaf (index-tensor view for `rview`, mask view for `fview`) of window k,
     `t<k>` tensor, `c<k>` constant, `add sub mul` -/
-def parseSrc (filter : Bool) (s : String) : Option Src :=
+private def parseSrc (filter : Bool) (s : String) : Option Src :=
   let toks := s.splitOn "_"
   let st := toks.foldl (fun (st : Option (List Src)) tok =>
     match st with
@@ -26,18 +28,18 @@ def parseSrc (filter : Bool) (s : String) : Option Src :=
   | some [e] => some e
   | _ => none
 
-def parseNats (s : String) : List Nat :=
+private def parseNats (s : String) : List Nat :=
   if s == "-" then [] else (s.splitOn ".").filterMap String.toNat?
 
-def aopOf (s : String) : AOp :=
+private def aopOf (s : String) : AOp :=
   if s == "add" then .add else if s == "sub" then .sub else if s == "mul" then .mul else .set
 
 /-- which loops of the "vector body + scalar tail" shape run at least once -/
-def pathOf (vectorised : Bool) (n V : Nat) : String :=
+private def pathOf (vectorised : Bool) (n V : Nat) : String :=
   if !vectorised then "scalar-loop"
   else if n < V then "tail-only" else if n % V == 0 then "vector-only" else "vector+tail"
 
-def rdKeys (e : Src) (it : Nat → Nat) (mask : Nat → Bool) (ps : List Nat) (extra : Nat → List Nat) : String :=
+private def rdKeys (e : Src) (it : Nat → Nat) (mask : Nat → Bool) (ps : List Nat) (extra : Nat → List Nat) : String :=
   " ".intercalate ((List.range 5).map fun w => s!"RD{w}={hex (hashNats 0 (sortDedup (e.readsOf it mask w ps ++ extra w)))}")
 
 def runRview (kv : List (String × String)) : String := Id.run do
@@ -131,7 +133,7 @@ def runFview (kv : List (String × String)) : String := Id.run do
     let extra : Nat → List Nat := fun w => if w == 1 && op != .set then sel else []
     return s!"route=mask:write:scalar-loop V={V} VAL={hex vh} WSEQ={hex (hashNats 0 (ins.map (·.1)))} NW={ins.length} {rdKeys e it mask sel extra}"
 
-def digFp (h : UInt64) (xs : List Fp) : UInt64 := xs.foldl (fun h x => Fp.hash h x) h
+private def digFp (h : UInt64) (xs : List Fp) : UInt64 := xs.foldl (fun h x => Fp.hash h x) h
 
 /-- a per-axis index view assigned to a 2-D range view of a larger tensor, and the view's two-index members -/
 def runRview2 (kv : List (String × String)) : String := Id.run do
@@ -156,7 +158,11 @@ def runRview2 (kv : List (String × String)) : String := Id.run do
   let pos := (List.range m).flatMap fun i => (List.range n).map fun k => (i, k)
   let e2s := digFp 0 (pos.map fun ik => evalS2 data it n ik.1 ik.2)
   let e2v := digFp 0 (pos.flatMap fun ik => if ik.2 + V ≤ n then evalV2 data it V n ik.1 ik.2 else [])
-  return s!"route=ii:into-2d-view:{if n < V then "no-vector-call" else "vector-call"} V={V} VAL={hex (digFp 0 mem)} NW={m * n} E2S={hex e2s} E2V={hex e2v}"
+  -- store order: C05's model of the 2-D range-view assignment loop (unit steps from the origin of B)
+  let vea := (getN kv "vea").getD 0
+  let its := ViewWrite.rowIters V (vea == 1) bw ⟨0, 1, m⟩ ⟨0, 1, n⟩
+  let wseq := hashNats 0 (ViewWrite.writeSeq its)
+  return s!"route=ii:into-2d-view:{if n < V then "no-vector-call" else "vector-call"} V={V} VAL={hex (digFp 0 mem)} WSEQ={hex wseq} NW={m * n} E2S={hex e2s} E2V={hex e2v}"
 
 def runRview3 (kv : List (String × String)) : String := Id.run do
   let some cfgName := getS kv "cfg" | return "bad-op"
@@ -201,5 +207,92 @@ def runFview3 (kv : List (String × String)) : String := Id.run do
   let tes := digFp 0 (pos.map fun as => ftevalS data mask dims as)
   let tev := digFp 0 (pos.flatMap fun as => if as.getD 2 0 + V ≤ d2 then ftevalV data mask V dims as else [])
   return s!"route=mask:into-3d-view:{if d2 < V then "no-vector-call" else "vector-call"} V={V} VAL={hex (digFp 0 mem)} NW={d0 * d1 * d2} TES={hex tes} TEV={hex tev}"
+
+/-- `Tensor X = A(it0,it1) + S(r0,r1)`: the two-index constructor loop (`ctor2Gen`) over the index view's two-index
+    members and C04's two-index evaluators of the range view -/
+def runRctor2 (kv : List (String × String)) : String := Id.run do
+  let some cfgName := getS kv "cfg" | return "bad-op"
+  let some cfg := Cfg.ofName cfgName | return "bad-op"
+  let some sz := getN kv "sz" | return "bad-op"
+  let some c := getN kv "c" | return "bad-op"
+  let some m := getN kv "m" | return "bad-op"
+  let some n := getN kv "n" | return "bad-op"
+  let some i0s := getS kv "i0" | return "bad-op"
+  let some i1s := getS kv "i1" | return "bad-op"
+  let some sr := getN kv "sr" | return "bad-op"
+  let some sc := getN kv "sc" | return "bad-op"
+  let some f0 := getN kv "f0" | return "bad-op"
+  let some s0 := getN kv "s0" | return "bad-op"
+  let some f1 := getN kv "f1" | return "bad-op"
+  let some s1 := getN kv "s1" | return "bad-op"
+  let some dyn := getN kv "dyn" | return "bad-op"
+  let i0 := parseNats i0s
+  let i1 := parseNats i1s
+  let it := storesTo (fun _ => 0) (flatII c m n (fun i => i0.getD i 0) (fun i => i1.getD i 0))
+  let V := cfg.native.lanes sz
+  let A : Nat → Fp := fun p => Fp.ofTok 1 p
+  let S : Nat → Fp := fun p => Fp.ofTok 2 p
+  let v : Views.View := ⟨if dyn == 1 then .dyn2 else .fix2, [sr, sc], [⟨f0, s0, m⟩, ⟨f1, s1, n⟩]⟩
+  let ws := ctor2Gen V m n
+    (fun i j => List.zipWith (· + ·) (evalV2 A it V n i j) ((v.eval2V V i j).2.map S))
+    (fun i j => evalS2 A it n i j + S (v.eval2S i j))
+  let mem := (List.range (m * n)).map fun p => applyWrites ws (fun _ => (0 : Fp)) p
+  let pos := (List.range m).flatMap fun i => (List.range n).map fun k => (i, k)
+  let rd1 := sortDedup (pos.map fun ik => it (ik.1 * n + ik.2))
+  let rd2 := sortDedup (pos.map fun ik => v.eval2S ik.1 ik.2)
+  return s!"route=ii+range:ctor2:{pathOf true n V} V={V} VAL={hex (digFp 0 mem)} WSEQ={hex (hashNats 0 (ws.map (·.1)))} NW={ws.length} RD1={hex (hashNats 0 rd1)} RD2={hex (hashNats 0 rd2)}"
+
+/-- `A(it) op= S(range)` (1-D): the scatter loops with C04's flat evaluator of the range view as the right-hand side -/
+def runRvsrc (kv : List (String × String)) : String := Id.run do
+  let some cfgName := getS kv "cfg" | return "bad-op"
+  let some cfg := Cfg.ofName cfgName | return "bad-op"
+  let some sz := getN kv "sz" | return "bad-op"
+  let some vea := getN kv "vea" | return "bad-op"
+  let some c := getN kv "c" | return "bad-op"
+  let some n := getN kv "n" | return "bad-op"
+  let some i0s := getS kv "i0" | return "bad-op"
+  let some sn := getN kv "sn" | return "bad-op"
+  let some f := getN kv "f" | return "bad-op"
+  let some st := getN kv "s" | return "bad-op"
+  let some ops := getS kv "op" | return "bad-op"
+  let some dyn := getN kv "dyn" | return "bad-op"
+  let i0 := parseNats i0s
+  let it : Nat → Nat := fun i => i0.getD i 0
+  let V := cfg.native.lanes sz
+  let op := aopOf ops
+  let v : Views.View := ⟨if dyn == 1 then .dyn1 else .fix1, [sn], [⟨f, st, n⟩]⟩
+  let env : Nat → Nat → Fp := fun w j => if w == 2 then Fp.ofTok 2 (v.evalS j) else Fp.ofTok w j
+  let ins := scatter (vea == 1) Fp.ofInt env it (fun _ => false) (.t 2) n V
+  let fin := exec op.ap ins (fun p => Fp.ofTok 1 p)
+  let mem := (List.range c).map fin
+  let rd1 := if op != .set then sortDedup (ins.map (·.1)) else []
+  let rd2 := sortDedup ((List.range n).map v.evalS)
+  return s!"route=flat1:write-from-range:{pathOf (vea == 1) n V} V={V} VAL={hex (digFp 0 mem)} WSEQ={hex (hashNats 0 (ins.map (·.1)))} NW={ins.length} RD1={hex (hashNats 0 rd1)} RD2={hex (hashNats 0 rd2)}"
+
+/-- `A(mask) op= S(range)` (1-D) -/
+def runFvsrc (kv : List (String × String)) : String := Id.run do
+  let some cfgName := getS kv "cfg" | return "bad-op"
+  let some cfg := Cfg.ofName cfgName | return "bad-op"
+  let some sz := getN kv "sz" | return "bad-op"
+  let some n := getN kv "n" | return "bad-op"
+  let some ms := getS kv "mask" | return "bad-op"
+  let some sn := getN kv "sn" | return "bad-op"
+  let some f := getN kv "f" | return "bad-op"
+  let some st := getN kv "s" | return "bad-op"
+  let some ops := getS kv "op" | return "bad-op"
+  let some dyn := getN kv "dyn" | return "bad-op"
+  let bits := ms.toList.map (· == '1')
+  let mask : Nat → Bool := fun i => bits.getD i false
+  let V := cfg.native.lanes sz
+  let op := aopOf ops
+  let v : Views.View := ⟨if dyn == 1 then .dyn1 else .fix1, [sn], [⟨f, st, n⟩]⟩
+  let env : Nat → Nat → Fp := fun w j => if w == 2 then Fp.ofTok 2 (v.evalS j) else Fp.ofTok w j
+  let ins := filterInstrs Fp.ofInt env (fun i => i) mask (.t 2) n
+  let fin := exec op.ap ins (fun p => Fp.ofTok 1 p)
+  let mem := (List.range n).map fin
+  let sel := (List.range n).filter fun p => mask p
+  let rd1 := if op != .set then sel else []
+  let rd2 := sortDedup (sel.map v.evalS)
+  return s!"route=mask:write-from-range:scalar-loop V={V} VAL={hex (digFp 0 mem)} WSEQ={hex (hashNats 0 (ins.map (·.1)))} NW={ins.length} RD1={hex (hashNats 0 rd1)} RD2={hex (hashNats 0 rd2)}"
 
 end Fastor.Driver
